@@ -125,7 +125,11 @@ def gen_case(seed, tier='quick'):
                 op['fault'] = {'kind': 'interrupt',
                                'frac': round(rng.uniform(0.0, 1.1), 3)}
             elif k == 'eio':
-                op['fault'] = {'kind': 'eio', 'at': rng.choice([1, 1, 2, 3])}
+                import errno as _e
+                op['fault'] = {'kind': 'eio', 'at': rng.choice([1, 1, 2, 3]),
+                               'errno': rng.choice(
+                                   [_e.EIO, _e.EIO, _e.EAGAIN, _e.EINTR,
+                                    _e.EBUSY, _e.ETIMEDOUT, _e.EDQUOT])}
             elif k == 'short':
                 op['fault'] = {'kind': 'short', 'seed': rng.randrange(1 << 30)}
             else:
@@ -295,7 +299,8 @@ def _run(case, fs, amb):
                                    '/simfs/.dry' + path[path.rfind('/') + 1:])
                     at = max(1, int(st.steps * fault['frac']))
                 elif fault['kind'] == 'eio':
-                    wf = {'kind': 'eio', 'at': fault['at']}
+                    wf = {'kind': 'eio', 'at': fault['at'],
+                          'errno': fault.get('errno', 5)}
                 else:
                     # size of a fault-free dry run decides the byte quota
                     fs.reset_op(bufsize=op.get('bufsize'))
@@ -385,7 +390,7 @@ def _run(case, fs, amb):
                     # count raw reads of a fault-free restore first
                     fs.reset_op(bufsize=op.get('bufsize'))
                     outcome_of(Model().construct_from_json_file, path)
-                    rf = {'kind': 'eio',
+                    rf = {'kind': 'eio', 'errno': fault.get('errno', 5),
                           'at': max(1, int(fs.raw_reads * fault['frac']))}
             # ---- restart: nothing survives but the bytes ------------------
             fs.reset_op(bufsize=op.get('bufsize'), read_fault=rf,
